@@ -2,6 +2,7 @@ package props
 
 import (
 	"fmt"
+	"github.com/cube2222/octosql/octosql"
 	"sort"
 	"strings"
 	"time"
@@ -111,8 +112,16 @@ func init() {
 	register("C22", "model_checking", func(r *findings.Run) {
 		o := stream.ScriptOpts{Keys: []int{1, 2}, Times: []int{1, 2, 3}, MaxLen: r.Pick(5, 7), Retractions: true, Watermarks: true}
 		hist := stream.GenScripts(o)
+		// second family: rows that are different values with equal hashes (HashManyValues carries no type tags: NULL, 0 and
+		// false collide, and so do all tuples), so that "same row" cannot be decided by hash
+		{
+			o2 := stream.ScriptOpts{Times: []int{1, 2}, MaxLen: r.Pick(4, 5), Retractions: true, Watermarks: true, Rows: [][]octosql.Value{
+				{octosql.NewInt(1), octosql.NewNull()}, {octosql.NewInt(1), octosql.NewInt(0)}, {octosql.NewInt(1), octosql.NewBoolean(false)},
+				{octosql.NewInt(1), octosql.NewTuple([]octosql.Value{octosql.NewInt(1)})}, {octosql.NewInt(1), octosql.NewTuple([]octosql.Value{octosql.NewInt(2)})}}}
+			hist = append(hist, stream.GenScripts(o2)...)
+		}
 		r.Bound = map[string]interface{}{"max_events": o.MaxLen, "rows": o.Keys, "times": o.Times, "histories": len(hist)}
-		r.Rule = "every valid changelog with watermarks up to the length bound (rows {1,2} so duplicates occur, event times {1,2,3} in any arrival order, retraction of a present row with event time >= its insert, strictly increasing watermarks, no record at or below an earlier watermark), each followed by end of stream, run on the real wrapper; state = history prefix, transition = one event; non-trivial = history with a watermark that has a record on each side of it"
+		r.Rule = "every valid changelog with watermarks up to the length bound (rows {1,2} so duplicates occur; a second family of rows (1,NULL), (1,0), (1,false), (1,(1)), (1,(2)) whose hashes collide, event times {1,2,3} in any arrival order, retraction of a present row with event time >= its insert, strictly increasing watermarks, no record at or below an earlier watermark), each followed by end of stream, run on the real wrapper; state = history prefix, transition = one event; non-trivial = history with a watermark that has a record on each side of it"
 		r.Assume("no late records", "a retraction's event time is not before its insert's", "the wrapper is synchronous (single goroutine), so one run of a history checks all its watermark points")
 		enum.Parallel(len(hist), func(i int) {
 			evs := hist[i]
